@@ -67,6 +67,10 @@ theorem parent_step {t : Table} {rk : Int → Nat}
   refine ⟨hid ▸ mem_ids_of_mem hn, ?_⟩
   rw [← hid, ← hp]; exact hrk n hn
 
+theorem ids_nonneg {t : Table} (hpos : ∀ n ∈ t, 0 ≤ n.id) {i : Int} (hi : i ∈ ids t) : 0 ≤ i := by
+  obtain ⟨a, ha, rfl⟩ := mem_ids.mp hi
+  exact hpos a ha
+
 theorem lookupD_mem {m : List (Int × Int)} {k : Int} (d : Int) (hk : k ∈ m.map Prod.fst) :
     ∃ e ∈ m, e.1 = k ∧ lookupD m k d = e.2 := by
   unfold lookupD
@@ -264,5 +268,560 @@ theorem WF_removeNodes {t : Table} (hw : WF t) (which : List Int) : WF (removeNo
   · have hgB : ¬ which.all (fun w => (ids t).contains w) = true := by
       simpa [List.all_eq_true] using hg
     rw [removeNodes_eq, if_neg hgB]; exact hw
+
+/-! ### `remove_nodes`: the new parent is the nearest kept ancestor on the old root path -/
+
+theorem pathToRoot_notin {t : Table} {q : Int} (hq : q ∉ ids t) (f : Nat) : pathToRoot t f q = [] := by
+  cases f with
+  | zero => rfl
+  | succ g =>
+    rw [pathToRoot]
+    cases hf : find? t q with
+    | none => rfl
+    | some n => exact absurd (mem_ids.mpr ⟨n, (find?_some hf).1, (find?_some hf).2⟩) hq
+
+theorem FirstKept.pathFind {t : Table} (hpos : ∀ n ∈ t, 0 ≤ n.id) {rk : Int → Nat}
+    (hrk : ∀ n ∈ t, n.parent < 0 ∨ (n.parent ∈ ids t ∧ rk n.parent < rk n.id))
+    {S : List Int} {q p : Int} (h : FirstKept t S q p) (f : Nat) (hq : q < 0 ∨ q ∈ ids t)
+    (hf : q ∈ ids t → rk q < f) :
+    (pathToRoot t f q).find? (fun a => !S.contains a) = some p ∨
+      ((pathToRoot t f q).find? (fun a => !S.contains a) = none ∧ p < 0) := by
+  induction h generalizing f with
+  | @stop q hstop =>
+    by_cases hin : q ∈ ids t
+    · have hq0 : 0 ≤ q := by
+        obtain ⟨a, ha, rfl⟩ := mem_ids.mp hin
+        exact hpos a ha
+      have hnS : q ∉ S := by
+        rcases hstop with h | h
+        · omega
+        · exact h
+      have hc : (!S.contains q) = true := by simpa using hnS
+      obtain ⟨g, rfl⟩ : ∃ g, f = g + 1 := ⟨f - 1, by have := hf hin; omega⟩
+      left
+      rw [pathToRoot]
+      cases hfd : find? t q with
+      | none => exact absurd hin (find?_none hfd)
+      | some n =>
+        simp only
+        split <;> simp [hnS]
+    · right
+      rw [pathToRoot_notin hin]
+      rcases hq with h | h
+      · exact ⟨rfl, h⟩
+      · exact absurd h hin
+  | @step q q' p h0 hqS hp hfk ih =>
+    obtain ⟨hin, hstep⟩ := parent_step hrk hp
+    obtain ⟨n, hfd, _, _, hnp⟩ := parentOf_some hp
+    obtain ⟨g, rfl⟩ : ∃ g, f = g + 1 := ⟨f - 1, by have := hf hin; omega⟩
+    have hc : (!S.contains q) = false := by simpa using hqS
+    rw [pathToRoot, hfd]
+    simp only [hnp]
+    by_cases hneg : q' < 0
+    · right
+      rw [if_pos hneg]
+      refine ⟨by simp [hqS], ?_⟩
+      rw [hfk.of_neg hneg]; exact hneg
+    · rw [if_neg hneg, List.find?_cons, hc]
+      have hq' : q' ∈ ids t ∧ rk q' < rk q := by
+        rcases hstep with h | h
+        · exact absurd h hneg
+        · exact h
+      exact ih g (Or.inr hq'.1) (fun _ => by have := hf hin; omega)
+
+/-- In a well-formed forest, `NKA t S c p` says: `p` is the first node after `c` on `c`'s root path
+that is not in `S`; if there is none, `p` is negative (a root marker). -/
+theorem NKA.rootPath {t : Table} (hw : WF t) {S : List Int} {c p : Int} (h : NKA t S c p) :
+    (rootPath t c).tail.find? (fun a => !S.contains a) = some p ∨
+      ((rootPath t c).tail.find? (fun a => !S.contains a) = none ∧ p < 0) := by
+  obtain ⟨rk, hrk, hle⟩ := WF_rank_le hw
+  obtain ⟨q, hq, hfk⟩ := h
+  obtain ⟨hin, hstep⟩ := parent_step hrk hq
+  obtain ⟨n, hfd, _, _, hnp⟩ := parentOf_some hq
+  unfold Navis.Forest.rootPath
+  rw [pathToRoot, hfd]
+  simp only [hnp]
+  by_cases hneg : q < 0
+  · right
+    rw [if_pos hneg]
+    refine ⟨by simp, ?_⟩
+    rw [hfk.of_neg hneg]; exact hneg
+  · rw [if_neg hneg, List.tail_cons]
+    have hq' : q ∈ ids t ∧ rk q < rk c := by
+      rcases hstep with h | h
+      · exact absurd h hneg
+      · exact h
+    exact hfk.pathFind hw.2.1 hrk _ (Or.inr hq'.1) (fun _ => by have := hle c; omega)
+
+/-- **`remove_nodes` rewires every kept node to its nearest kept ancestor**: the new parent is the
+first node after the node itself on its *old* root path that is not removed; when every ancestor is
+removed the node becomes a root (negative parent). -/
+theorem removeNodes_parent_is_nearest_kept_ancestor {t : Table} (hw : WF t) {which : List Int}
+    (hg : ∀ w ∈ which, w ∈ ids t) {m : Node} (hm : m ∈ removeNodes t which) :
+    m.id ∈ ids t ∧ m.id ∉ which ∧
+    ((rootPath t m.id).tail.find? (fun a => !which.contains a) = some m.parent ∨
+      ((rootPath t m.id).tail.find? (fun a => !which.contains a) = none ∧ m.parent < 0)) := by
+  obtain ⟨n, hn, hnw, hid, _, _, _, hnka⟩ := mem_removeNodes hw hg hm
+  rw [hid]
+  exact ⟨mem_ids_of_mem hn, hnw, hnka.rootPath hw⟩
+
+/-! ### downsample -/
+
+/-- Fix points of `downsample`: non-slab (by current label) or preserved. -/
+def dsFix (t : Table) (pres : List Int) (i : Int) : Bool :=
+  match find? t i with
+  | some n => n.label != .slab || pres.contains i
+  | none => false
+
+/-- The `new_parents` dictionary as a list of assignments, in the order navis records them. -/
+def dsPairs (t : Table) (f : Option Nat) (pres : List Int) : List (Int × Int) :=
+  ((ids t).filter (dsFix t pres)).flatMap fun e => dsWalk t (dsFix t pres) f (t.length + 1) e
+
+theorem downsample_eq (t : Table) (f : Option Nat) (pres : List Int) :
+    downsample t f pres =
+      if t.length ≤ 1 then t else
+        classify ((t.filter fun n => (dsPairs t f pres).any fun e => e.1 == n.id).map fun n =>
+          { n with parent := lookupD (dsPairs t f pres).reverse n.id n.parent }) := rfl
+
+/-- `i < factor` failed (`factor = inf` never fails). -/
+def dsLimit (f : Option Nat) (i : Nat) : Bool :=
+  match f with
+  | some k => decide (k ≤ i)
+  | none => false
+
+theorem dsScan_succ (t : Table) (fixB : Int → Bool) (f : Option Nat) (fuel : Nat) (p : Int) (i : Nat) :
+    dsScan t fixB f (fuel + 1) p i =
+      if dsLimit f i then (p, false)
+      else if p < 0 || fixB p then (p, true)
+      else dsScan t fixB f fuel ((parentOf t p).getD (-1)) (i + 1) := rfl
+
+theorem dsWalk_succ (t : Table) (fixB : Int → Bool) (f : Option Nat) (fuel : Nat) (this : Int) :
+    dsWalk t fixB f (fuel + 1) this =
+      match parentOf t this with
+      | none => []
+      | some p =>
+        if p < 0 then [(this, -1)] else
+        if (dsScan t fixB f (t.length + 1) p 0).2 then [(this, (dsScan t fixB f (t.length + 1) p 0).1)]
+        else (this, (dsScan t fixB f (t.length + 1) p 0).1) ::
+          dsWalk t fixB f fuel (dsScan t fixB f (t.length + 1) p 0).1 := rfl
+
+theorem parentOf_isSome_of_mem {t : Table} {i : Int} (hi : i ∈ ids t) : ∃ p, parentOf t i = some p := by
+  unfold parentOf
+  cases hf : find? t i with
+  | none => exact absurd hi (find?_none hf)
+  | some n => exact ⟨n.parent, rfl⟩
+
+/-- The inner scan returns an ancestor-or-self of its start (or a negative marker), and when it
+reports `stop` the result is a fix point or negative — provided the fuel covers the rank. -/
+theorem dsScan_spec {t : Table} {rk : Int → Nat} (hpos : ∀ n ∈ t, 0 ≤ n.id)
+    (hrk : ∀ n ∈ t, n.parent < 0 ∨ (n.parent ∈ ids t ∧ rk n.parent < rk n.id))
+    (fixB : Int → Bool) (f : Option Nat) (fuel : Nat) (p : Int) (i : Nat)
+    (hp : p < 0 ∨ p ∈ ids t) (hf0 : 1 ≤ fuel) (hf : p ∈ ids t → rk p + 2 ≤ fuel) :
+    ((dsScan t fixB f fuel p i).1 < 0 ∨
+      (p ∈ ids t ∧ (dsScan t fixB f fuel p i).1 ∈ ids t ∧ rk (dsScan t fixB f fuel p i).1 ≤ rk p)) ∧
+    ((dsScan t fixB f fuel p i).2 = true →
+      (dsScan t fixB f fuel p i).1 < 0 ∨ fixB (dsScan t fixB f fuel p i).1 = true) := by
+  induction fuel generalizing p i with
+  | zero => omega
+  | succ g ih =>
+    have hself : p < 0 ∨ (p ∈ ids t ∧ p ∈ ids t ∧ rk p ≤ rk p) := by
+      rcases hp with h | h
+      · exact Or.inl h
+      · exact Or.inr ⟨h, h, Nat.le_refl _⟩
+    rw [dsScan_succ]
+    by_cases hc1 : dsLimit f i = true
+    · rw [if_pos hc1]
+      exact ⟨hself, by simp⟩
+    · rw [if_neg hc1]
+      by_cases hc : (decide (p < 0) || fixB p) = true
+      · rw [if_pos hc]
+        refine ⟨hself, fun _ => ?_⟩
+        simpa using hc
+      · rw [if_neg hc]
+        have hc' : ¬ p < 0 ∧ fixB p = false := by simpa using hc
+        have hin : p ∈ ids t := by
+          rcases hp with h | h
+          · exact absurd h hc'.1
+          · exact h
+        obtain ⟨p', hp'⟩ := parentOf_isSome_of_mem hin
+        obtain ⟨_, hstep⟩ := parent_step hrk hp'
+        rw [hp']
+        simp only [Option.getD_some]
+        have hfp := hf hin
+        have := ih p' (i + 1) (hstep.imp id (·.1)) (by omega)
+          (fun hm => by have := ids_nonneg hpos hm
+                        rcases hstep with h | h
+                        · omega
+                        · omega)
+        refine ⟨?_, this.2⟩
+        rcases this.1 with h | ⟨h1, h2, h3⟩
+        · exact Or.inl h
+        · have := ids_nonneg hpos h1
+          rcases hstep with h | h
+          · omega
+          · exact Or.inr ⟨hin, h2, by omega⟩
+
+/-- What one outer walk records: every recorded parent is negative, or a strictly lower-ranked node
+of the table that is a fix point or itself gets a record in the same walk. -/
+def DsOK (t : Table) (rk : Int → Nat) (fixB : Int → Bool) (P : List (Int × Int)) : Prop :=
+  ∀ e ∈ P, e.1 ∈ ids t ∧
+    (e.2 < 0 ∨ (e.2 ∈ ids t ∧ rk e.2 < rk e.1 ∧ (fixB e.2 = true ∨ ∃ e' ∈ P, e'.1 = e.2)))
+
+theorem DsOK.cons {t : Table} {rk : Int → Nat} {fixB : Int → Bool} {P : List (Int × Int)} {e : Int × Int}
+    (hP : DsOK t rk fixB P)
+    (he : e.1 ∈ ids t ∧
+      (e.2 < 0 ∨ (e.2 ∈ ids t ∧ rk e.2 < rk e.1 ∧ (fixB e.2 = true ∨ ∃ e' ∈ e :: P, e'.1 = e.2)))) :
+    DsOK t rk fixB (e :: P) := by
+  intro x hx
+  rcases List.mem_cons.mp hx with rfl | hx
+  · exact he
+  · obtain ⟨h1, h2⟩ := hP x hx
+    refine ⟨h1, h2.imp id fun ⟨a, b, c⟩ => ⟨a, b, c.imp id fun ⟨e', he', h⟩ => ⟨e', List.mem_cons_of_mem _ he', h⟩⟩⟩
+
+theorem dsWalk_spec {t : Table} {rk : Int → Nat} (hpos : ∀ n ∈ t, 0 ≤ n.id)
+    (hrk : ∀ n ∈ t, n.parent < 0 ∨ (n.parent ∈ ids t ∧ rk n.parent < rk n.id))
+    (hle : ∀ i, rk i ≤ t.length)
+    (fixB : Int → Bool) (f : Option Nat) (fuel : Nat) (this : Int) (hf : this ∈ ids t → rk this < fuel) :
+    DsOK t rk fixB (dsWalk t fixB f fuel this) ∧
+      (this ∈ ids t → ∃ e ∈ dsWalk t fixB f fuel this, e.1 = this) := by
+  induction fuel generalizing this with
+  | zero =>
+    refine ⟨fun e he => by simp [dsWalk] at he, fun h => ?_⟩
+    have := hf h; omega
+  | succ g ih =>
+    rw [dsWalk_succ]
+    cases hp : parentOf t this with
+    | none =>
+      refine ⟨fun e he => by simp at he, fun h => ?_⟩
+      obtain ⟨p, hp'⟩ := parentOf_isSome_of_mem h
+      rw [hp] at hp'; simp at hp'
+    | some p =>
+      obtain ⟨hin, hstep⟩ := parent_step hrk hp
+      simp only
+      by_cases hneg : p < 0
+      · rw [if_pos hneg]
+        refine ⟨?_, fun _ => ⟨_, List.mem_singleton.mpr rfl, rfl⟩⟩
+        intro e he
+        rw [List.mem_singleton.mp he]
+        exact ⟨hin, Or.inl (by show (-1 : Int) < 0; omega)⟩
+      · rw [if_neg hneg]
+        have hpin : p ∈ ids t ∧ rk p < rk this := by
+          rcases hstep with h | h
+          · exact absurd h hneg
+          · exact h
+        have hthis := hle this
+        have hs := dsScan_spec hpos hrk fixB f (t.length + 1) p 0 (Or.inr hpin.1) (by omega) (fun _ => by omega)
+        generalize dsScan t fixB f (t.length + 1) p 0 = r at hs
+        obtain ⟨hs1, hs2⟩ := hs
+        have hr : r.1 < 0 ∨ (r.1 ∈ ids t ∧ rk r.1 < rk this) := by
+          rcases hs1 with h | ⟨_, h2, h3⟩
+          · exact Or.inl h
+          · exact Or.inr ⟨h2, by omega⟩
+        by_cases hstop : r.2 = true
+        · rw [if_pos hstop]
+          refine ⟨?_, fun _ => ⟨_, List.mem_singleton.mpr rfl, rfl⟩⟩
+          intro e he
+          rw [List.mem_singleton.mp he]
+          refine ⟨hin, ?_⟩
+          rcases hr with h | ⟨h1, h2⟩
+          · exact Or.inl h
+          · rcases hs2 hstop with h | h
+            · exact Or.inl h
+            · exact Or.inr ⟨h1, h2, Or.inl h⟩
+        · rw [if_neg hstop]
+          have hfuel : r.1 ∈ ids t → rk r.1 < g := by
+            intro hmem
+            have := hf hin
+            have := ids_nonneg hpos hmem
+            rcases hr with h | ⟨_, h2⟩
+            · omega
+            · omega
+          obtain ⟨ih1, ih2⟩ := ih r.1 hfuel
+          refine ⟨DsOK.cons ih1 ⟨hin, ?_⟩, fun _ => ⟨_, List.mem_cons_self, rfl⟩⟩
+          rcases hr with h | ⟨h1, h2⟩
+          · exact Or.inl h
+          · obtain ⟨e', he', hee⟩ := ih2 h1
+            exact Or.inr ⟨h1, h2, Or.inr ⟨e', List.mem_cons_of_mem _ he', hee⟩⟩
+
+theorem dsFix_mem {t : Table} {pres : List Int} {i : Int} (h : dsFix t pres i = true) : i ∈ ids t := by
+  unfold dsFix at h
+  cases hf : find? t i with
+  | none => rw [hf] at h; simp at h
+  | some n => exact mem_ids.mpr ⟨n, (find?_some hf).1, (find?_some hf).2⟩
+
+theorem dsFix_of_mem {t : Table} (hnd : (ids t).Nodup) {pres : List Int} {n : Node} (hn : n ∈ t)
+    (h : n.label ≠ .slab ∨ n.id ∈ pres) : dsFix t pres n.id = true := by
+  unfold dsFix
+  rw [find?_of_mem hnd hn]
+  rcases h with h | h
+  · simp [h]
+  · simp [h]
+
+/-- All recorded assignments: the child is a table node, the new parent is negative or a strictly
+lower-ranked table node that itself has an assignment (hence is kept). -/
+theorem dsPairs_spec {t : Table} {rk : Int → Nat} (hpos : ∀ n ∈ t, 0 ≤ n.id)
+    (hrk : ∀ n ∈ t, n.parent < 0 ∨ (n.parent ∈ ids t ∧ rk n.parent < rk n.id))
+    (hle : ∀ i, rk i ≤ t.length) (f : Option Nat) (pres : List Int) :
+    ∀ e ∈ dsPairs t f pres, e.1 ∈ ids t ∧
+      (e.2 < 0 ∨ (e.2 ∈ ids t ∧ rk e.2 < rk e.1 ∧ ∃ e' ∈ dsPairs t f pres, e'.1 = e.2)) := by
+  have hwalk : ∀ x, DsOK t rk (dsFix t pres) (dsWalk t (dsFix t pres) f (t.length + 1) x) ∧
+      (x ∈ ids t → ∃ e ∈ dsWalk t (dsFix t pres) f (t.length + 1) x, e.1 = x) :=
+    fun x => dsWalk_spec hpos hrk hle _ f _ x (fun _ => by have := hle x; omega)
+  intro e he
+  unfold dsPairs at he
+  obtain ⟨x, hx, hex⟩ := List.mem_flatMap.mp he
+  obtain ⟨h1, h2⟩ := (hwalk x).1 e hex
+  refine ⟨h1, h2.imp id fun ⟨a, b, c⟩ => ⟨a, b, ?_⟩⟩
+  rcases c with c | ⟨e', he', hee⟩
+  · obtain ⟨e', he', hee⟩ := (hwalk e.2).2 a
+    refine ⟨e', ?_, hee⟩
+    unfold dsPairs
+    exact List.mem_flatMap.mpr ⟨e.2, List.mem_filter.mpr ⟨a, c⟩, he'⟩
+  · refine ⟨e', ?_, hee⟩
+    unfold dsPairs
+    exact List.mem_flatMap.mpr ⟨x, hx, he'⟩
+
+theorem mem_any_fst {P : List (Int × Int)} {i : Int} : (P.any fun e => e.1 == i) = true ↔ ∃ e ∈ P, e.1 = i := by
+  simp [List.any_eq_true]
+
+/-- Row-level description of `downsample` on tables with more than one row. -/
+theorem mem_downsample {t : Table} {f : Option Nat} {pres : List Int} (hlen : ¬ t.length ≤ 1) {m : Node}
+    (hm : m ∈ downsample t f pres) :
+    ∃ n ∈ t, m.id = n.id ∧ m.x = n.x ∧ m.y = n.y ∧ m.z = n.z ∧
+      ∃ e ∈ dsPairs t f pres, e.1 = n.id ∧ m.parent = e.2 := by
+  rw [downsample_eq, if_neg hlen] at hm
+  obtain ⟨a, ha, rfl⟩ := mem_classify.mp hm
+  obtain ⟨n, hn, rfl⟩ := List.mem_map.mp ha
+  obtain ⟨hnt, hany⟩ := List.mem_filter.mp hn
+  obtain ⟨e0, he0, he0k⟩ := mem_any_fst.mp hany
+  have hk : n.id ∈ (dsPairs t f pres).reverse.map Prod.fst :=
+    List.mem_map.mpr ⟨e0, List.mem_reverse.mpr he0, he0k⟩
+  obtain ⟨e, he, hek, hlk⟩ := lookupD_mem n.parent hk
+  exact ⟨n, hnt, rfl, rfl, rfl, rfl, e, List.mem_reverse.mp he, hek, hlk⟩
+
+theorem ids_downsample {t : Table} {f : Option Nat} {pres : List Int} (hlen : ¬ t.length ≤ 1) :
+    ids (downsample t f pres) = (ids t).filter (fun i => (dsPairs t f pres).any fun e => e.1 == i) := by
+  rw [downsample_eq, if_neg hlen, ids_classify,
+    ← ids_filter t (fun i => (dsPairs t f pres).any fun e => e.1 == i)]
+  simp [ids, List.map_map, Function.comp_def]
+
+/-- **`downsample` preserves well-formedness**, for every table, every factor (`none` = `inf`, and
+even the degenerate `some 0`) and every list of preserved nodes. -/
+theorem WF_downsample {t : Table} (hw : WF t) (f : Option Nat) (pres : List Int) : WF (downsample t f pres) := by
+  by_cases hlen : t.length ≤ 1
+  · rw [downsample_eq, if_pos hlen]; exact hw
+  · obtain ⟨rk, hrk, hle⟩ := WF_rank_le hw
+    obtain ⟨hnd, hpos, _⟩ := hw
+    have hsp := dsPairs_spec hpos hrk hle f pres
+    refine ⟨?_, ?_, rk, ?_⟩
+    · rw [ids_downsample hlen]; exact hnd.filter _
+    · intro m hm
+      obtain ⟨n, hn, hid, _⟩ := mem_downsample hlen hm
+      rw [hid]; exact hpos n hn
+    · intro m hm
+      obtain ⟨n, hn, hid, _, _, _, e, he, hek, hmp⟩ := mem_downsample hlen hm
+      rcases (hsp e he).2 with h | ⟨h1, h2, h3⟩
+      · exact Or.inl (hmp ▸ h)
+      · right
+        rw [hmp, hid, ← hek]
+        refine ⟨?_, h2⟩
+        rw [ids_downsample hlen, List.mem_filter]
+        exact ⟨h1, mem_any_fst.mpr h3⟩
+
+/-- Kept nodes are original nodes with unchanged ids and coordinates. -/
+theorem downsample_subset (t : Table) (f : Option Nat) (pres : List Int) :
+    ∀ m ∈ downsample t f pres, ∃ n ∈ t, n.id = m.id ∧ n.x = m.x ∧ n.y = m.y ∧ n.z = m.z := by
+  intro m hm
+  by_cases hlen : t.length ≤ 1
+  · rw [downsample_eq, if_pos hlen] at hm
+    exact ⟨m, hm, rfl, rfl, rfl, rfl⟩
+  · obtain ⟨n, hn, h1, h2, h3, h4, _⟩ := mem_downsample hlen hm
+    exact ⟨n, hn, h1.symm, h2.symm, h3.symm, h4.symm⟩
+
+/-- Every fix point (non-slab by its current label, or preserved) survives downsampling. -/
+theorem downsample_keeps_fixpoints {t : Table} (hw : WF t) (f : Option Nat) (pres : List Int) {n : Node}
+    (hn : n ∈ t) (hfix : n.label ≠ .slab ∨ n.id ∈ pres) : n.id ∈ ids (downsample t f pres) := by
+  by_cases hlen : t.length ≤ 1
+  · rw [downsample_eq, if_pos hlen]; exact mem_ids_of_mem hn
+  · obtain ⟨rk, hrk, hle⟩ := WF_rank_le hw
+    have hin := mem_ids_of_mem hn
+    have hfx := dsFix_of_mem hw.1 (pres := pres) hn hfix
+    obtain ⟨e, he, hee⟩ := (dsWalk_spec hw.2.1 hrk hle (dsFix t pres) f (t.length + 1) n.id
+      (fun _ => by have := hle n.id; omega)).2 hin
+    rw [ids_downsample hlen, List.mem_filter]
+    refine ⟨hin, mem_any_fst.mpr ⟨e, ?_, hee⟩⟩
+    unfold dsPairs
+    exact List.mem_flatMap.mpr ⟨n.id, List.mem_filter.mpr ⟨hin, hfx⟩, he⟩
+
+/-! ### insert_nodes -/
+
+theorem foldl_max_spec (l : List Int) (a : Int) : a ≤ l.foldl max a ∧ ∀ i ∈ l, i ≤ l.foldl max a := by
+  induction l generalizing a with
+  | nil => simp
+  | cons x xs ih =>
+    simp only [List.foldl_cons]
+    obtain ⟨h1, h2⟩ := ih (max a x)
+    refine ⟨by omega, ?_⟩
+    intro i hi
+    rcases List.mem_cons.mp hi with rfl | hi
+    · omega
+    · exact h2 i hi
+
+theorem maxId_nonneg (t : Table) : 0 ≤ maxId t := (foldl_max_spec (ids t) 0).1
+
+/-- Every id is at most `maxId`, so ids from `maxId + 1` on are fresh. -/
+theorem le_maxId {t : Table} {i : Int} (hi : i ∈ ids t) : i ≤ maxId t := (foldl_max_spec (ids t) 0).2 i hi
+
+def insRemap (t : Table) (edgesPC : List (Int × Int)) : List (Int × Int) :=
+  edgesPC.zipIdx.map fun (e, k) => (e.2, maxId t + 1 + k)
+
+def insNew (t : Table) (edgesPC : List (Int × Int)) (coords : List (Int × Int × Int)) : Table :=
+  edgesPC.zipIdx.map fun (e, k) =>
+    ({ id := maxId t + 1 + k, parent := e.1, x := (coords.getD k (0, 0, 0)).1,
+       y := (coords.getD k (0, 0, 0)).2.1, z := (coords.getD k (0, 0, 0)).2.2 } : Node)
+
+def insOld (t : Table) (edgesPC : List (Int × Int)) : Table :=
+  t.map fun n =>
+    match (insRemap t edgesPC).reverse.find? (fun e => e.1 == n.id) with
+    | some e => { n with parent := e.2 }
+    | none => n
+
+theorem insertNodes_eq (t : Table) (edgesPC : List (Int × Int)) (coords : List (Int × Int × Int)) :
+    insertNodes t edgesPC coords = classify (insOld t edgesPC ++ insNew t edgesPC coords) := rfl
+
+theorem mem_insNew {t : Table} {edgesPC : List (Int × Int)} {coords : List (Int × Int × Int)} {m : Node}
+    (hm : m ∈ insNew t edgesPC coords) :
+    ∃ (k : Nat) (e : Int × Int), edgesPC[k]? = some e ∧ m.id = maxId t + 1 + k ∧ m.parent = e.1 := by
+  unfold insNew at hm
+  obtain ⟨⟨e, k⟩, hx, rfl⟩ := List.mem_map.mp hm
+  exact ⟨k, e, List.mem_zipIdx_iff_getElem?.mp hx, rfl, rfl⟩
+
+theorem ids_insNew (t : Table) (edgesPC : List (Int × Int)) (coords : List (Int × Int × Int)) :
+    ids (insNew t edgesPC coords) = (List.range' 0 edgesPC.length).map fun (k : Nat) => maxId t + 1 + (k : Int) := by
+  unfold insNew ids
+  rw [← List.zipIdx_map_snd 0 edgesPC, List.map_map, List.map_map]
+  rfl
+
+theorem mem_ids_insNew {t : Table} {edgesPC : List (Int × Int)} {coords : List (Int × Int × Int)} {i : Int} :
+    i ∈ ids (insNew t edgesPC coords) ↔ ∃ k : Nat, k < edgesPC.length ∧ i = maxId t + 1 + k := by
+  rw [ids_insNew]
+  simp only [List.mem_map, List.mem_range'_1]
+  constructor
+  · rintro ⟨k, ⟨_, hk⟩, rfl⟩; exact ⟨k, by omega, rfl⟩
+  · rintro ⟨k, hk, rfl⟩; exact ⟨k, ⟨by omega, by omega⟩, rfl⟩
+
+theorem ids_insOld (t : Table) (edgesPC : List (Int × Int)) : ids (insOld t edgesPC) = ids t := by
+  unfold insOld ids
+  rw [List.map_map]
+  apply List.map_congr_left
+  intro n _
+  simp only [Function.comp]
+  split <;> rfl
+
+theorem mem_insOld {t : Table} {edgesPC : List (Int × Int)} {m : Node} (hm : m ∈ insOld t edgesPC) :
+    ∃ n ∈ t, m.id = n.id ∧ m.x = n.x ∧ m.y = n.y ∧ m.z = n.z ∧
+      ((∃ (k : Nat) (e : Int × Int), edgesPC[k]? = some e ∧ e.2 = n.id ∧ m.parent = maxId t + 1 + k) ∨
+        m.parent = n.parent) := by
+  unfold insOld at hm
+  obtain ⟨n, hn, rfl⟩ := List.mem_map.mp hm
+  refine ⟨n, hn, ?_⟩
+  split
+  · rename_i e he
+    refine ⟨rfl, rfl, rfl, rfl, Or.inl ?_⟩
+    have hmem := List.mem_reverse.mp (List.mem_of_find?_eq_some he)
+    have hkey : e.1 = n.id := by simpa using List.find?_some he
+    unfold insRemap at hmem
+    obtain ⟨⟨e0, k⟩, hx, rfl⟩ := List.mem_map.mp hmem
+    exact ⟨k, e0, List.mem_zipIdx_iff_getElem?.mp hx, hkey, rfl⟩
+  · exact ⟨rfl, rfl, rfl, rfl, Or.inr rfl⟩
+
+/-- **`insert_nodes` preserves well-formedness** whenever every requested `(parent, child)` pair is an
+edge of the skeleton (the condition navis validates before inserting). -/
+theorem WF_insertNodes {t : Table} (hw : WF t) (edgesPC : List (Int × Int)) (coords : List (Int × Int × Int))
+    (hg : ∀ e ∈ edgesPC, ∃ n ∈ t, n.id = e.2 ∧ n.parent = e.1) : WF (insertNodes t edgesPC coords) := by
+  rw [insertNodes_eq]
+  apply WF_classify
+  obtain ⟨hnd, hpos, rk, hrk⟩ := hw
+  have hmax := maxId_nonneg t
+  let rk' : Int → Nat := fun i =>
+    if i ≤ maxId t then 2 * rk i + 2
+    else 2 * rk ((edgesPC[(i - (maxId t + 1)).toNat]?.getD (0, 0)).2) + 1
+  have rk_old : ∀ i, i ∈ ids t → rk' i = 2 * rk i + 2 := fun i hi => if_pos (le_maxId hi)
+  have rk_new : ∀ (k : Nat) (e : Int × Int), edgesPC[k]? = some e → rk' (maxId t + 1 + k) = 2 * rk e.2 + 1 := by
+    intro k e he
+    have h1 : ¬ (maxId t + 1 + (k : Int) ≤ maxId t) := by omega
+    have h2 : (maxId t + 1 + (k : Int) - (maxId t + 1)).toNat = k := by omega
+    show (if maxId t + 1 + (k : Int) ≤ maxId t then _ else _) = _
+    rw [if_neg h1, h2, he]; rfl
+  have hlt : ∀ {k : Nat} {e : Int × Int}, edgesPC[k]? = some e → k < edgesPC.length := by
+    intro k e he
+    exact (List.getElem?_eq_some_iff.mp he).1
+  refine ⟨?_, ?_, rk', ?_⟩
+  · rw [ids_append, ids_insOld, List.nodup_append]
+    refine ⟨hnd, ?_, ?_⟩
+    · rw [ids_insNew]
+      exact List.Pairwise.map _ (fun a b (h : a ≠ b) => by omega) (List.nodup_range' (s := 0) (n := edgesPC.length))
+    · intro a ha b hb
+      obtain ⟨k, _, rfl⟩ := mem_ids_insNew.mp hb
+      have := le_maxId ha
+      omega
+  · intro m hm
+    rcases List.mem_append.mp hm with hm | hm
+    · obtain ⟨n, hn, hid, _⟩ := mem_insOld hm
+      rw [hid]; exact hpos n hn
+    · obtain ⟨k, e, _, hid, _⟩ := mem_insNew hm
+      omega
+  · intro m hm
+    rw [ids_append, ids_insOld]
+    rcases List.mem_append.mp hm with hm | hm
+    · obtain ⟨n, hn, hid, _, _, _, hpar⟩ := mem_insOld hm
+      have hin : m.id ∈ ids t := hid ▸ mem_ids_of_mem hn
+      rcases hpar with ⟨k, e, he, hen, hmp⟩ | hmp
+      · right
+        refine ⟨List.mem_append_right _ (mem_ids_insNew.mpr ⟨k, hlt he, hmp⟩), ?_⟩
+        rw [hmp, rk_new k e he, rk_old _ hin, hen, hid]
+        omega
+      · rcases hrk n hn with h | ⟨h1, h2⟩
+        · exact Or.inl (hmp ▸ h)
+        · right
+          refine ⟨List.mem_append_left _ (hmp ▸ h1), ?_⟩
+          rw [hmp, rk_old _ h1, rk_old _ hin, hid]
+          omega
+    · obtain ⟨k, e, he, hid, hmp⟩ := mem_insNew hm
+      obtain ⟨n, hn, hn2, hn1⟩ := hg e (List.mem_of_getElem? he)
+      rcases hrk n hn with h | ⟨h1, h2⟩
+      · exact Or.inl (by rw [hmp, ← hn1]; exact h)
+      · right
+        rw [hn1] at h1 h2
+        rw [hn2] at h2
+        refine ⟨List.mem_append_left _ (hmp ▸ h1), ?_⟩
+        rw [hmp, hid, rk_new k e he, rk_old _ h1]
+        omega
+
+/-- `insert_nodes` keeps every old id (in order) and appends the fresh ids `maxId + 1 + k`. -/
+theorem ids_insertNodes (t : Table) (edgesPC : List (Int × Int)) (coords : List (Int × Int × Int)) :
+    ids (insertNodes t edgesPC coords) =
+      ids t ++ (List.range' 0 edgesPC.length).map fun (k : Nat) => maxId t + 1 + (k : Int) := by
+  rw [insertNodes_eq, ids_classify, ids_append, ids_insOld, ids_insNew]
+
+/-! ### labels after operations that end in `classify_nodes` -/
+
+theorem labelsOKB_removeNodes (t : Table) (which : List Int) :
+    removeNodes t which = t ∨ labelsOKB (removeNodes t which) = true := by
+  rw [removeNodes_eq]
+  split
+  · exact Or.inr (labelsOKB_classify _)
+  · exact Or.inl rfl
+
+theorem labelsOKB_downsample (t : Table) (f : Option Nat) (pres : List Int) :
+    downsample t f pres = t ∨ labelsOKB (downsample t f pres) = true := by
+  rw [downsample_eq]
+  split
+  · exact Or.inl rfl
+  · exact Or.inr (labelsOKB_classify _)
+
+theorem labelsOKB_insertNodes (t : Table) (edgesPC : List (Int × Int)) (coords : List (Int × Int × Int)) :
+    labelsOKB (insertNodes t edgesPC coords) = true := by
+  rw [insertNodes_eq]; exact labelsOKB_classify _
 
 end Navis.Forest
